@@ -269,3 +269,88 @@ pub(crate) fn verify_nonexistence<TC: Configuration>(
     verify_nonmembership::<TC>(root_hash, nonmembership_proof)?;
     Ok(())
 }
+
+/// Verification hooks (cargo feature `verif_hooks`, off by default): public
+/// pass-through wrappers around the private verification helpers of this module,
+/// used by the external property-based testing harness. No behaviour is added.
+#[cfg(feature = "verif_hooks")]
+pub mod verif_hooks {
+    use super::*;
+
+    /// See [super::verify_membership]
+    pub fn verify_membership<TC: Configuration>(
+        root_hash: Digest,
+        proof: &MembershipProof,
+    ) -> Result<(), VerificationError> {
+        super::verify_membership::<TC>(root_hash, proof)
+    }
+
+    /// See [super::verify_nonmembership]
+    pub fn verify_nonmembership<TC: Configuration>(
+        root_hash: Digest,
+        proof: &NonMembershipProof,
+    ) -> Result<(), VerificationError> {
+        super::verify_nonmembership::<TC>(root_hash, proof)
+    }
+
+    /// See [super::verify_label]
+    pub fn verify_label<TC: Configuration>(
+        vrf_public_key: &[u8],
+        akd_label: &AkdLabel,
+        freshness: VersionFreshness,
+        version: u64,
+        vrf_proof: &[u8],
+        node_label: NodeLabel,
+    ) -> Result<(), VerificationError> {
+        super::verify_label::<TC>(
+            vrf_public_key,
+            akd_label,
+            freshness,
+            version,
+            vrf_proof,
+            node_label,
+        )
+    }
+
+    /// See [super::verify_existence]
+    pub fn verify_existence<TC: Configuration>(
+        vrf_public_key: &[u8],
+        root_hash: Digest,
+        akd_label: &AkdLabel,
+        freshness: VersionFreshness,
+        version: u64,
+        vrf_proof: &[u8],
+        membership_proof: &MembershipProof,
+    ) -> Result<(), VerificationError> {
+        super::verify_existence::<TC>(
+            vrf_public_key,
+            root_hash,
+            akd_label,
+            freshness,
+            version,
+            vrf_proof,
+            membership_proof,
+        )
+    }
+
+    /// See [super::verify_nonexistence]
+    pub fn verify_nonexistence<TC: Configuration>(
+        vrf_public_key: &[u8],
+        root_hash: Digest,
+        akd_label: &AkdLabel,
+        freshness: VersionFreshness,
+        version: u64,
+        vrf_proof: &[u8],
+        nonmembership_proof: &NonMembershipProof,
+    ) -> Result<(), VerificationError> {
+        super::verify_nonexistence::<TC>(
+            vrf_public_key,
+            root_hash,
+            akd_label,
+            freshness,
+            version,
+            vrf_proof,
+            nonmembership_proof,
+        )
+    }
+}
